@@ -558,6 +558,9 @@ func (x *Unit) raiseFromCall(st *State, key string, n Term, pv Term) {
 	b := x.freshVal("panics", SBool, nil)
 	ps := x.withCond(st, b)
 	x.set(ps, "TP:"+key, Store(x.get(ps, "TP:"+key), n, True))
+	// since Go 1.21 recover() never yields nil for a panic (panic(nil) raises *runtime.PanicNilError)
+	x.assume(ps, Not(x.U.IsNilIface(pv)))
+	x.abstractions["a recovered panic value is never nil (Go >= 1.21: panic(nil) raises *runtime.PanicNilError)"] = true
 	x.raise(ps, pv)
 	cont := x.withCond(st, Not(b))
 	st.pc = cont.pc
